@@ -43,6 +43,7 @@ type Contract struct {
 	LoopMod  map[int][]*Expr // loop frame: locations the loop body may modify (for the keys they name)
 	LoopAsm  map[int][]*Clause // assumed (not proved) at the loop head, reported as an assumption
 	LoopEns  map[int][]*Clause // per-iteration postconditions, checked at every back edge; iter(e) = value at the loop head
+	IfaceReq map[string][]*Clause // for implementations: the preconditions of each interface contract refined ("Iface.Method" -> clauses, renamed)
 	Params   []string // for iface / functype contracts: parameter names
 	File     string
 	Line     int
